@@ -753,6 +753,9 @@ func c14(c *ctx) {
 	c14readFromEntry(c, r.fork())
 	c14udpEntry(c, r.fork())
 	c14udpReturn(c, r.fork())
+	for k := 0; k < 2; k++ {
+		c14system(c, k)
+	}
 	// (a) pipe scripts
 	nScripts, nOps, nConc := 3000, 40, 60
 	if c.thorough() {
